@@ -17,7 +17,10 @@ def axes_to_rotator(z: ArrayLike | None, y: ArrayLike) -> Rotation:
     else:
         z0 = _extract_orthogonal(y0, _normalize(np.atleast_2d(z)))
     z0_trans = rot_y.apply(z0, inverse=True)
-    rot_z = _get_align_rotator([[1, 0, 0]], z0_trans)
+    # z0_trans is orthogonal to the y axis, so the second rotation must be around the
+    # y axis (this also holds when z0_trans is antiparallel to the z axis).
+    theta = np.arctan2(-z0_trans[:, 2], z0_trans[:, 0])
+    rot_z = Rotation.from_rotvec(theta[:, np.newaxis] * np.array([[0.0, 1.0, 0.0]]))
     return rot_y * rot_z
 
 
@@ -46,7 +49,15 @@ def _get_align_rotator(src, dst) -> Rotation:
     theta = np.arctan2(sin, cos)
 
     norm[norm == 0] = np.inf
-    return Rotation.from_rotvec(cross / norm * theta)
+    rotvec = cross / norm * theta
+    # antiparallel members of a mixed batch need the half turn, too.
+    antiparallel = np.all(np.abs(src + dst) < 1e-6, axis=1)
+    if np.any(antiparallel):
+        rotvec[antiparallel] = _get_align_rotator(
+            np.broadcast_to(src, rotvec.shape)[antiparallel],
+            np.broadcast_to(dst, rotvec.shape)[antiparallel],
+        ).as_rotvec()
+    return Rotation.from_rotvec(rotvec)
 
 
 def from_euler_xyz_coords(
